@@ -73,9 +73,13 @@ def props_for(side: str, cls: str, rule: str) -> set:
         p.add("C04")
         if rule in ("R1", "R2", "K2"):
             p.add("C08")
+        if rule in ("R1", "R2"):
+            # a failed WHITESPACE / COMMENT attempt is a failed alternative of the implicit
+            # (WHITESPACE | COMMENT)*: what it did to the user stack must be undone too
+            p.add("C05")
         if rule == "K2":
             p.add("C06")
-        if rule == "RAISE":
+        if rule in ("RAISE", "R5"):
             p.add("C07")
         return p
     stack_t = cls in STACK_TERMINALS or cls == "Push"
@@ -887,7 +891,7 @@ def analyse_rules(repo: Repo, rep: OpReport, masks: dict, tier: str) -> None:
 
 
 def analyse_trivia(repo: Repo, rep: OpReport, tier: str) -> None:
-    from .flow import Flow, PathRef, St
+    from .flow import Flow, PathRef, St, local_names
 
     # interpreter side
     fn = repo.func(STATE_REL, "ParserState.parse_trivia")
@@ -900,6 +904,7 @@ def analyse_trivia(repo: Repo, rep: OpReport, tier: str) -> None:
     out = flow.newlist(st)
     st.env[names[0]] = PathRef("state")
     st.env[names[1]] = out
+    st.env["__locals__"] = local_names(fn)  # R5: a local read on a path that has not assigned it
     exits = flow.run(fn.body, st)
     rep.count("trivia_paths", len(exits))
     for e in exits:
